@@ -83,7 +83,7 @@ func ruleC05R1(c *Ctx) {
 		c.check(cnt == 1 && len(naturalLoops(st)) == 0, "C05.R1", st, "Start launches exactly one goroutine", st.Pos(), "one go statement, no loop", "Start launches several worker goroutines")
 	}
 	// one worker per pipeline: exactly one NewLogProcessingWorker and one Start on every path of the starter
-	starter := c.P.Fn(aPrepPipe).AnonFuncs[0]
+	starter := returnedClosure(c.P.Fn(aPrepPipe))
 	cs := &CountSpec{P: c.P, Classes: []string{"NewLogProcessingWorker", "procWorker.Start"}, Site: func(s ssa.CallInstruction) int {
 		if f := s.Common().StaticCallee(); f != nil {
 			if isAnchor(f, aNewLPW) {
